@@ -1124,7 +1124,7 @@ example :
       guards_check_sampled_dimension = .ok [] := by
   refine ⟨?_, ?_, ?_, ?_, ?_, ?_, ?_⟩ <;> decide +kernel
 
-/-! ## range descriptors whose ticks come through a link (`Pure/DimLink.lean`) -/
+/-! ## range descriptors whose ticks come through a link (`Pure/DimLinkTicks.lean`) -/
 
 /-- A range descriptor whose ticks are the vector a DataArray link selects (`RangeDimension.ticks` →
 `DimensionLink.values`): the tick count message is in the array's list iff the PROVIDER's extent along the axis the
@@ -1133,10 +1133,10 @@ index marks with `-1` differs from the data extent the descriptor stands at - fo
 theorem C14_linked_ticks_count (da : DataArray) (idx : Nat) (d : Dim) (n : Nat)
     (shape : List Nat) (index : List Int) (data : List Rat)
     (hd : dimAt da idx = some (d, n)) (hk : d.kind = .range)
-    (hv : DimLink.linkedTicks shape index data = .ok d.ticks) :
-    .dim .RangeDimTicksMismatch idx ∈ checkDataArray da ↔ DimLink.axisLen shape index ≠ some n := by
+    (hv : DimLinkTicks.linkedTicks shape index data = .ok d.ticks) :
+    .dim .RangeDimTicksMismatch idx ∈ checkDataArray da ↔ DimLinkTicks.axisLen shape index ≠ some n := by
   rw [C14_complete_RangeDimTicksMismatch]
-  have hl := DimLink.values_length shape index data d.ticks hv
+  have hl := DimLinkTicks.values_length shape index data d.ticks hv
   constructor
   · rintro ⟨d', n', h, _, hne⟩
     rw [hd] at h
@@ -1151,34 +1151,34 @@ theorem C14_linked_ticks_count (da : DataArray) (idx : Nat) (d : Dim) (n : Nat)
 /-- the read of a link never fails when the index is one with exactly one `-1` and every other coordinate inside the
 provider, and its length is the provider's extent along the marked axis -/
 theorem C14_linked_ticks_read (shape : List Nat) (index : List Int) (data : List Rat)
-    (hc : DimLink.coordsOk shape index = true) (hlen : data.length = DimLink.blockSize shape) :
-    ∃ v, DimLink.linkedTicks shape index data = .ok v ∧ DimLink.axisLen shape index = some v.length := by
-  obtain ⟨v, hv⟩ := DimLink.values_total shape index data hc hlen
-  exact ⟨v, hv, DimLink.values_length shape index data v hv⟩
+    (hc : DimLinkTicks.coordsOk shape index = true) (hlen : data.length = DimLinkTicks.blockSize shape) :
+    ∃ v, DimLinkTicks.linkedTicks shape index data = .ok v ∧ DimLinkTicks.axisLen shape index = some v.length := by
+  obtain ⟨v, hv⟩ := DimLinkTicks.values_total shape index data hc hlen
+  exact ⟨v, hv, DimLinkTicks.values_length shape index data v hv⟩
 
 /-- `link_data_array` accepts every such index, and its verdict depends on the RANK of the provider only: a provider
 whose selected vector has any other length is accepted as well -/
 theorem C14_link_accepts_any_length (shape shape' : List Nat) (index : List Int)
     (hr : shape.length = shape'.length) :
-    DimLink.linkDataArray shape index = DimLink.linkDataArray shape' index ∧
-    (DimLink.coordsOk shape index = true → DimLink.linkDataArray shape index = .ok ()) := by
-  refine ⟨by simp [DimLink.linkDataArray, hr], fun hc => ?_⟩
-  obtain ⟨h1, h2⟩ := DimLink.coordsOk_accepted shape index hc
-  simp [DimLink.linkDataArray, h1, h2]
+    DimLinkTicks.linkDataArray shape index = DimLinkTicks.linkDataArray shape' index ∧
+    (DimLinkTicks.coordsOk shape index = true → DimLinkTicks.linkDataArray shape index = .ok ()) := by
+  refine ⟨by simp [DimLinkTicks.linkDataArray, hr], fun hc => ?_⟩
+  obtain ⟨h1, h2⟩ := DimLinkTicks.coordsOk_accepted shape index hc
+  simp [DimLinkTicks.linkDataArray, h1, h2]
 
 /-- after an accepted `link_data_array` the descriptor IS an alias in the sense of `is_alias`, whatever array it is
 linked to: `is_alias` says nothing about where the ticks come from or how many there are -/
-theorem C14_linked_is_alias (s : DimLink.RangeStore) : DimLink.isAlias (DimLink.afterLinkArray s) = true :=
-  DimLink.isAlias_afterLinkArray s
+theorem C14_linked_is_alias (s : DimLinkTicks.RangeStore) : DimLinkTicks.isAlias (DimLinkTicks.afterLinkArray s) = true :=
+  DimLinkTicks.isAlias_afterLinkArray s
 
 /-- row 1 of a 3x4 provider; a column of it; a coordinate outside the provider; an index with two `-1` is refused -/
 example :
-    DimLink.linkedTicks [3, 4] [1, -1] [0, 1, 2, 3, 4, 5, 6, 7, 8, 9, 10, 11] = .ok [4, 5, 6, 7] ∧
-    DimLink.linkedTicks [3, 4] [-1, 2] [0, 1, 2, 3, 4, 5, 6, 7, 8, 9, 10, 11] = .ok [2, 6, 10] ∧
-    DimLink.linkedTicks [3, 4] [3, -1] [0, 1, 2, 3, 4, 5, 6, 7, 8, 9, 10, 11] = .error .indexError ∧
-    DimLink.linkDataArray [3, 4] [-1, -1] = .error .valueError ∧
-    DimLink.linkDataArray [3, 4] [-1] = .error .incompatibleDimensions ∧
-    DimLink.linkDataArray [3, 4] [1, -1] = .ok () := by
+    DimLinkTicks.linkedTicks [3, 4] [1, -1] [0, 1, 2, 3, 4, 5, 6, 7, 8, 9, 10, 11] = .ok [4, 5, 6, 7] ∧
+    DimLinkTicks.linkedTicks [3, 4] [-1, 2] [0, 1, 2, 3, 4, 5, 6, 7, 8, 9, 10, 11] = .ok [2, 6, 10] ∧
+    DimLinkTicks.linkedTicks [3, 4] [3, -1] [0, 1, 2, 3, 4, 5, 6, 7, 8, 9, 10, 11] = .error .indexError ∧
+    DimLinkTicks.linkDataArray [3, 4] [-1, -1] = .error .valueError ∧
+    DimLinkTicks.linkDataArray [3, 4] [-1] = .error .incompatibleDimensions ∧
+    DimLinkTicks.linkDataArray [3, 4] [1, -1] = .ok () := by
   refine ⟨?_, ?_, ?_, ?_, ?_, ?_⟩ <;> decide +kernel
 
 end Nix.C14
